@@ -55,22 +55,33 @@ def recOf? (j : Json) : Option Rec := do
 def recJson (r : Rec) : Json :=
   Json.mkObj [("priority", jInt r.priority), ("lifetime", jInt r.lifetime), ("lastseen", jInt r.lastseen)]
 
+/-- a well-formed status: `[[identity, {priority, lifetime, lastseen}], …]` in document order -/
+def statusOfRecs? (j : Json) : Option Status := do
+  (← jArr? j).mapM (fun x => do
+    match ← jArr? x with
+    | [i, r] => pure (← jStr? i, ← recOf? r)
+    | _ => none)
+
+def statusJson (st : Status) : Json := .arr (st.map (fun e => Json.arr #[.str e.1, recJson e.2])).toArray
+
 def labelOf? (j : Json) : Option Label := do
   match ← jArr? j with
   | [.str "start", i, p, l] => some (.start (← jStr? i) (← jInt? p) (← jInt? l))
-  | [.str "keepalive", i] => some (.keepalive (← jStr? i))
+  | [.str "keepalive", i, lag] => some (.keepalive (← jStr? i) (← jNat? lag))
+  | [.str "exitLost", i] => some (.exitLost (← jStr? i))
+  | [.str "deliverStale", i, v] => some (.deliverStale (← jStr? i) (← statusOfRecs? v))
   | [.str "exit", i] => some (.exit (← jStr? i))
   | [.str "kill", i] => some (.kill (← jStr? i))
   | [.str "deliver", i] => some (.deliver (← jStr? i))
   | [.str "tick", d] => some (.tick (← jNat? d))
   | [.str "expire", i] => some (.expire (← jStr? i))
   | [.str "foreign", i, r] => some (.foreign (← jStr? i) (← jOpt? recOf? r))
-  | [.str "wake", i] => some (.wake (← jStr? i))
+  | [.str "wake", i, lag] => some (.wake (← jStr? i) (← jNat? lag))
   | _ => none
 
 def snapshot (s : State) (ids : List Identity) : Json :=
   Json.mkObj [("now", jInt s.now),
-    ("status", .arr (s.status.map (fun e => Json.arr #[.str e.1, recJson e.2])).toArray),
+    ("status", statusJson s.status),
     ("ops", Json.mkObj (ids.filterMap (fun i => (s.ops i).map (fun o => (i,
       Json.mkObj [("alive", .bool o.alive), ("paused", .bool o.paused), ("prio", jInt o.prio),
                   ("sleeping", .bool o.sleeping)])))))]
@@ -97,6 +108,30 @@ def handle : DrvHandler := fun op args =>
       match touchVal (← jInt? u) (← jInt? p) (← jInt? l) (← jInt? now) with
       | none => some (ok .null)
       | some r => some (ok (recJson r))
+  | "C13.write", [st, patch] => do
+      -- one merge-patch `{status: {id: null | record, …}}` applied to a well-formed status (the LTS's write semantics)
+      let st ← statusOfRecs? st
+      let ps ← (← jArr? patch).mapM (fun x => do
+        match ← jArr? x with
+        | [i, r] => pure (← jStr? i, ← jOpt? recOf? r)
+        | _ => none)
+      some (ok (statusJson (ps.foldl (fun acc p => acc.patch p.1 p.2) st)))
+  | "C13.stale", [j] => do
+      -- `deliverStale` as one step: verdict from the view at `now`, clean by identity on the current status
+      let u ← jInt? (← jField? j "u")
+      let cur ← statusOfRecs? (← jField? j "current")
+      let view ← statusOfRecs? (← jField? j "view")
+      let me ← jStr? (← jField? j "me")
+      let prio ← jInt? (← jField? j "prio")
+      let paused ← jBool? (← jField? j "paused")
+      let now ← jInt? (← jField? j "now")
+      let s0 : State := { now := now, ver := 0, status := cur,
+                          ops := updOp (fun _ => none) me { prio := prio, lifetime := 60, alive := true, paused := paused, seen := none } }
+      match step u s0 (.deliverStale me view) with
+      | none => some (err "not-enabled")
+      | some s1 => some (ok (Json.mkObj [("status", statusJson s1.status),
+          ("paused", match s1.ops me with | some o => .bool o.paused | none => .null),
+          ("sleeping", match s1.ops me with | some o => .bool o.sleeping | none => .null)]))
   | "C13.run", [u, ids, labels] => do
       let u ← jInt? u
       let ids ← jStrList? ids
